@@ -216,6 +216,11 @@ func (st *state) pollUntilFirst(d time.Duration) {
 		if got {
 			return
 		}
+		if len(fs.Errors()) > 0 {
+			// A partition in an error state answers every poll at once; do not
+			// turn that into a zero-virtual-time spin of the harness.
+			time.Sleep(250 * time.Millisecond)
+		}
 	}
 }
 
